@@ -28,6 +28,13 @@ def run(ctx):
         sort_rules(r, R)
     stored_order_rules(r, lib)
     position_rules(r, lib)
+    # document order of attributes starts in the parser: the collected list is handed on exactly as collected (PM12, tagged C09)
+    from . import pm
+    PR = pm.Roles(lib)
+    r.ob("PM.roles", "library", PR.ok, "tag parser = %s" % PR.tp.name if PR.ok else "parser mechanism not recognised: %s" % "; ".join(PR.problems), key="PM.roles")
+    if PR.ok:
+        pm.pm6_multiple(r, PR)
+        pm.pm12_attributes(r, PR)
     r.trust("sort_unstable_by_key orders by the key; Vec::push appends; iterators yield front to back")
     r.assume("children of one parent have distinct positions and names (parser-built trees; hand-built trees are C16's subject)")
 
